@@ -140,6 +140,11 @@ class KllC08(Part):
             hs.append(self.tree_history(rng, b))
         for _ in range(nlong):
             hs.append(self.long_history(rng, tier))
+        # interleaved queries (they sort level 0 and set its flag), merges whose level-0 items overflow the target part-way, copies: the
+        # C07 history shapes under the C08 oracle for non-tree histories (levels stay sorted, view ordered, rank = weight below)
+        for _ in range(12 if tier == "quick" else 80):
+            hs.append(c07kll.PART.one_history(rng, tier))
+            hs.append(c07kll.PART.merge_overflow_history(rng, tier))
         return hs
 
     # ------------------------------------------------------------------ oracle
